@@ -100,11 +100,46 @@ func genGluelayer() {
 			}
 			l.defStrStrList(fn[1], as)
 		}
+		// the include: the included configuration is merged into the including one with the same function
+		if fd := f.fn("ImageConfiguration.parseIncluding"); fd != nil {
+			calls, _ := gluelayerCalls(f, fd.Body, func(c string) bool { return strings.HasSuffix(c, ".MergeInto") })
+			if len(calls) == 0 {
+				gluelayerProblem([]string{"C13"}, "image_configuration.go: no MergeInto call in parseIncluding")
+			}
+			l.defStrList("includeMergeCalls", calls)
+		} else {
+			gluelayerProblem([]string{"C13"}, "image_configuration.go: func ImageConfiguration.parseIncluding not found")
+		}
 		hashFn("pkg/build/types/image_configuration.go", "ImageConfiguration.MergeInto")
 		hashFn("pkg/build/types/image_configuration.go", "ImageAccounts.MergeInto")
 		hashFn("pkg/build/types/image_configuration.go", "ImageContents.MergeInto")
 		hashFn("pkg/build/types/image_configuration.go", "ImageConfiguration.Validate")
 		hashFn("pkg/build/types/image_configuration.go", "ImageConfiguration.ValidateServiceBundle")
+	}
+
+	// --- pkg/build/lock.go: the per-architecture copy of LockImageConfiguration: how `copied` is made and what is
+	// written into it afterwards (everything else of the copy is what MergeInto carried over) ---
+	if f := load("pkg/build/lock.go"); f != nil {
+		var sts []string
+		if fd := f.fn("LockImageConfiguration"); fd != nil {
+			ast.Inspect(fd.Body, func(n ast.Node) bool {
+				switch x := n.(type) {
+				case *ast.AssignStmt:
+					if len(x.Lhs) == 1 && (f.src(x.Lhs[0]) == "copied" || strings.HasPrefix(f.src(x.Lhs[0]), "copied.")) {
+						sts = append(sts, f.src(x))
+					}
+				case *ast.CallExpr:
+					if strings.HasSuffix(f.src(x.Fun), ".MergeInto") {
+						sts = append(sts, f.src(x))
+					}
+				}
+				return true
+			})
+		}
+		if len(sts) == 0 {
+			gluelayerProblem([]string{"C13"}, "lock.go: the per-architecture copy (copied := …; input.MergeInto(&copied)) not found in LockImageConfiguration")
+		}
+		l.defStrList("lockCopyStatements", sts)
 	}
 
 	// --- pkg/options/options.go: the name of the per-architecture layer file ---
